@@ -176,7 +176,7 @@ def notifyParent (fuel : Nat) (w : World) (x : SlabID) (cx : Ctx) : Except WErr 
       else
         let notFound : World := { w with hinfo := AList.erase w.hinfo x }
         match w.cont? hi.parent with
-        | none => .error .unknownContainer
+        | none => .ok (notFound, cx)   -- the former parent has been disposed of: the closure finds nothing
         | some (.arr pa) =>
           match AList.find? (w.idxOf hi.parent) x with
           | none => .ok (notFound, cx)
@@ -327,6 +327,67 @@ def mapRemove (w : World) (p : SlabID) (k : MKey) (cx : Ctx) : Except WErr (MKey
       let (w, cx) ← notifyParent w.fuelOf w p cx
       let (rv', _, w, cx) ← w.uninlineIfNeeded rv cx
       return (rk, rv', w, cx)
+  | _ => .error .unknownContainer
+
+/-! ### Bulk pop through a handle (`Array.PopIterate` / `OrderedMap.PopIterate`)
+
+The emptied container keeps its identity and its place; everything it held is handed to the
+caller, who disposes of it (deep-removal idiom): the containers nested in it cease to exist.
+As every other mutation, the pop notifies the parent (repaired in /repo by the commit
+"fix: PopIterate through a child handle must notify the parent container"), and the emptied
+array tracks no child index any more ("fix: Array.PopIterate must forget the indexes of the child
+containers it removed"). -/
+
+/-- the containers referenced by the elements of a container -/
+def Cont.childRefs (w : World) (c : Cont) : List SlabID :=
+  let es : List Elem := match c with
+    | .arr a => a.toList
+    | .map m => m.toList.map (·.2)
+  es.filterMap (fun e => match e.pay with
+    | .ref v => if (w.cont? v).isSome then some v else none
+    | _ => none)
+
+/-- container `vid` and everything nested in it has been disposed of by the caller -/
+def forget (fuel : Nat) (w : World) (vid : SlabID) : World :=
+  match fuel with
+  | 0 => w
+  | fuel + 1 =>
+    match w.cont? vid with
+    | none => w
+    | some c =>
+      let kids := Cont.childRefs w c
+      let w : World := { w with conts := AList.erase w.conts vid, hinfo := AList.erase w.hinfo vid,
+                                mutIdx := AList.erase w.mutIdx vid }
+      kids.foldl (forget fuel) w
+
+def forgetElems (w : World) (es : List Elem) : World :=
+  es.foldl (fun w e => match e.pay with
+    | .ref v => forget w.fuelOf w v
+    | _ => w) w
+
+/-- `Array.PopIterate(fn)` through the handle of container `h` -/
+def arrPop (w : World) (h : SlabID) (cx : Ctx) : Except WErr (List Elem × World × Ctx) :=
+  match w.cont? h with
+  | some (.arr a) =>
+    let (es, a', cx) := a.popIterate cx
+    let w := w.setCont h (.arr a')
+    let w := w.setIdx h []
+    let w := w.forgetElems es
+    match notifyParent w.fuelOf w h cx with
+    | .error e => .error e
+    | .ok (w, cx) => .ok (es, w, cx)
+  | _ => .error .unknownContainer
+
+/-- `OrderedMap.PopIterate(fn)` through the handle of container `h` -/
+def mapPop (w : World) (h : SlabID) (cx : Ctx) : Except WErr (List (MKey × Elem) × World × Ctx) :=
+  match w.cont? h with
+  | some (.map m) =>
+    let (kvs, m', cx) := m.popIterate cx
+    let w := w.setCont h (.map m')
+    let w := w.forgetElems (kvs.map (·.2))
+    match notifyParent w.fuelOf w h cx with
+    | .error e => .error e
+    | .ok (w, cx) => .ok (kvs, w, cx)
   | _ => .error .unknownContainer
 
 /-- `NewArray` / `NewMap`: a new standalone container -/
